@@ -11,7 +11,8 @@ RULE = ('generated DDDMP text files: 1-4 roots (either sign, constants excluded)
         'variables) or without (levels from .permids, with gaps, not increasing in .ids order); support listed in id order '
         'that differs from the level order; node numbers a random permutation (not creation order, parents may precede '
         'children), node lines children-first or shuffled. Oracle: the truth table of each root computed from the generated '
-        'functions themselves, compared by variable name with every element of bdd.roots; wf() of the returned manager. '
+        'functions themselves, compared by variable name with every element of bdd.roots; wf() of the returned manager; in half of the '
+        'cases a second unrelated file of the same byte length is written to the same path right after the first and loaded. '
         'non-trivial: >= 2 internal nodes; distinct = (mode, order, root truth tables, numbering).')
 EXHAUSTIVE = {'quick': False, 'thorough': False}
 REQUIRED_COUNTERS = ['files-checked']
@@ -26,10 +27,8 @@ def chunks(tier, seed):
     return [('case_file', [dict(seed=seed * 4099 + k + i) for i in range(20)]) for k in range(0, n, 20)]
 
 
-def case_file(c, res):
+def _gen(rnd):
     import dd.bdd as B
-    import dd.dddmp as D
-    rnd = random.Random(c['seed'])
     nv = rnd.randint(2, 8)
     allv = [f'v{k}' for k in range(nv)]              # index = position in this list
     level_order = allv[:]
@@ -88,15 +87,16 @@ def case_file(c, res):
         hdr.append('.auxids ' + ' '.join(str(rnd.randint(0, 20)) for _ in supp_f))
     hdr += [
             f'.nroots {len(rootids)}', '.rootids ' + ' '.join(map(str, rootids)), '.nodes']
-    text = '\n'.join(hdr + [l for _, l in lines] + ['.end', ''])
-    td = tempfile.mkdtemp(prefix='verif_c16_')
-    try:
-        fn = os.path.join(td, 'f.dddmp')
-        with open(fn, 'w') as f:
-            f.write(text)
-        b = D.load(fn)
-    finally:
-        shutil.rmtree(td, ignore_errors=True)
+    return dict(hdr=hdr, lines=[l for _, l in lines], level_order=level_order, ordered=ordered, supp_f=supp_f, permid=permid, supp=supp,
+                roots=roots, sb=sb, varinfo=varinfo, ids=ids)
+
+
+def _text(g, pad=0):
+    return '\n'.join(['# generated' + '.' * pad] + g['hdr'][1:] + g['lines'] + ['.end', ''])
+
+
+def _judge(b, g, text, res):
+    level_order, ordered, supp_f, permid, supp, roots, sb = (g[k] for k in ('level_order', 'ordered', 'supp_f', 'permid', 'supp', 'roots', 'sb'))
     wf(b, None)
     declared = set(b.vars)
     want_decl = set(level_order) if ordered else set(supp_f)
@@ -114,4 +114,35 @@ def case_file(c, res):
     for u, _ in roots:
         sb.decref(u)
     res.count('files-checked')
-    return (varinfo, ordered, tuple(level_order), tuple(sorted(want)), tuple(ids[:6]))
+    return (g['varinfo'], ordered, tuple(level_order), tuple(sorted(want)), tuple(g['ids'][:6]))
+
+
+def case_file(c, res):
+    import dd.dddmp as D
+    rnd = random.Random(c['seed'])
+    gs = [_gen(rnd)]
+    if gs[0] is None:
+        return None
+    if rnd.random() < .5:
+        # a second, unrelated file written to the *same path* right after the first, padded (in its comment line) to the same number of
+        # bytes: what the loader returns depends on the content of the file, not on its name, size or time stamp
+        g2 = _gen(rnd)
+        if g2 is not None:
+            gs.append(g2)
+    L = max(len(_text(g)) for g in gs)
+    td = tempfile.mkdtemp(prefix='verif_c16_')
+    key = None
+    try:
+        fn = os.path.join(td, 'f.dddmp')
+        for g in gs:
+            text = _text(g, L - len(_text(g)))
+            with open(fn, 'w') as f:
+                f.write(text)
+            b = D.load(fn)
+            k = _judge(b, g, text, res)
+            key = key or k
+            if g is not gs[0]:
+                res.count('same-path-rewritten')
+    finally:
+        shutil.rmtree(td, ignore_errors=True)
+    return key
